@@ -26,7 +26,17 @@ fn count_nodes(g: &usvg::Group) -> usize {
     n
 }
 
+/// Address-space limit of the worker (3 GiB): an unbounded expansion aborts the worker instead of the machine.
+fn limit_memory() {
+    static ONCE: std::sync::Once = std::sync::Once::new();
+    ONCE.call_once(|| unsafe {
+        let lim = libc::rlimit { rlim_cur: 3 << 30, rlim_max: 3 << 30 };
+        libc::setrlimit(libc::RLIMIT_AS, &lim);
+    });
+}
+
 fn parse(payload: &str) -> String {
+    limit_memory();
     let (opts, doc) = payload.split_once('\t').unwrap_or(("", payload));
     let mut opt = make_options(opts);
     let data = match load_doc(doc, &mut opt) {
